@@ -219,7 +219,10 @@ def check_event(ex, ev, before, after_expected_from_replay, n, op):
     return before[:ci] + added + before[ci + len(removed):]
 
 
-def make_harness(op, n, m=0, use_validator=True, mask=None):
+def make_harness(op, n, m=0, use_validator=True, mask=None, factory=None, twins=False):
+    """factory: None -> a bare TraitList; else an owner-backed TraitListObject with every notification route attached
+    (props/_owners.list_factory).  twins: every item, old or new, is a distinct object that compares EQUAL to all others, so
+    'the contents changed' is a matter of identity and a replacement by an equal object still has to be announced."""
     keykind = {"set_int": "int", "del_int": "int", "insert": "int", "pop": "int",
                "set_slice": "slice", "del_slice": "slice"}.get(op)
 
@@ -233,9 +236,15 @@ def make_harness(op, n, m=0, use_validator=True, mask=None):
         if op in ("sort", "remove", "reverse"):
             # symbolic sort keys, concrete identities: every weak ordering (incl. ties) is a path class
             items = [K(i, ex.int("key%d" % i)) for i in range(n)]
-        TL = ATL if ex.sym else tlo.TraitList
-        kw = {"item_validator": validator} if use_validator else {}
-        tl = TL(items, notifiers=[notifier], **kw)
+        elif twins:
+            items = [K(i, 0) for i in range(n)]
+        extra = None
+        if factory is None:
+            TL = ATL if ex.sym else tlo.TraitList
+            kw = {"item_validator": validator} if use_validator else {}
+            tl = TL(items, notifiers=[notifier], **kw)
+        else:
+            tl, extra = factory(ex, items, validator, notifier)
         ref = ListModel(items) if ex.sym else list(items)
         vars_before = sorted(vars(tl))
         before = list(tl)
@@ -247,9 +256,11 @@ def make_harness(op, n, m=0, use_validator=True, mask=None):
             if n > 0:
                 ex.assume(k <= ListModel.IMUL_MAX)
         if op in ("set_int", "insert", "append"):
-            new = BAD if ex.flag("bad") else 200
+            new = BAD if ex.flag("bad") else (K(900, 0) if twins else 200)
         elif op in ("set_slice", "extend", "iadd"):
             new = new_items(ex, m)
+            if twins:
+                new = [x if x == BAD else K(900 + j, 0) for j, x in enumerate(new)]
         elif op == "remove":
             new = K(99, ex.int("needle"))
         elif op == "sort":
@@ -285,6 +296,8 @@ def make_harness(op, n, m=0, use_validator=True, mask=None):
         if exc_t is not None:
             ex.check(after == before, "failing operation leaves the list untouched")
             ex.check(events == [], "failing operation is silent")
+        if extra is not None:
+            extra(ex, exc_t, tl)
         if after != before:
             ex.check(len(events) == 1, "exactly one event for a content change")
         else:
@@ -378,6 +391,41 @@ def obligations(tier, build):
                 for op in ("extend", "iadd"):
                     obs.append(Obligation("%s/n=%d/m=%d" % (op, n, m), make_harness(op, n, m),
                                           bounds={"n": n, "m": m}, leverage="choice feasibility only", **common))
+    # ---- the same one-step obligations on an owner-backed TraitListObject (List trait value) with the legacy items handler
+    # and two observe handlers attached; items are equal-but-distinct twins, so a replacement by an equal object counts
+    import props._owners as owners
+    ocommon = dict(env=owners.list_env, stubs=STUBS + owners.STUBS)
+    NO = 2 if tier == "quick" else 4
+    MO = 2 if tier == "quick" else 3
+    fac = owners.list_factory()
+    for n in range(NO + 1):
+        for op in ("set_int", "del_int", "insert", "pop", "imul", "del_slice", "pop_default", "append", "clear",
+                   "reverse", "sort", "remove"):
+            for mask in (slice_parts() if op == "del_slice" else [None]):
+                obs.append(Obligation(
+                    "owned/%s/n=%d%s" % (op, n, "" if mask is None else "/" + part_name(mask)),
+                    make_harness(op, n, mask=mask, factory=fac, twins=True),
+                    bounds={"list length n": n, "index / slice fields / factor": "unbounded Int (or None)",
+                            "container": "TraitListObject owned by a HasTraits object; 1 legacy + 2 observe handlers",
+                            "items": "pairwise equal, distinct objects"},
+                    leverage="all integer arguments", **ocommon))
+        for m in range(MO + 1):
+            for mask in slice_parts():
+                obs.append(Obligation(
+                    "owned/set_slice/n=%d/m=%d/%s" % (n, m, part_name(mask)),
+                    make_harness("set_slice", n, m, mask=mask, factory=fac, twins=True),
+                    bounds={"list length n": n, "replacement length m": m, "start/stop/step": "unbounded Int or None",
+                            "container": "TraitListObject owned by a HasTraits object; 1 legacy + 2 observe handlers"},
+                    leverage="all slice fields", max_paths=60000, **ocommon))
+            if n <= 1:
+                for op in ("extend", "iadd"):
+                    obs.append(Obligation("owned/%s/n=%d/m=%d" % (op, n, m), make_harness(op, n, m, factory=fac, twins=True),
+                                          bounds={"n": n, "m": m}, leverage="choice feasibility only", **ocommon))
+    falsy = owners.list_factory(falsy=True)
+    for op in ("set_int", "append", "insert", "del_int"):
+        obs.append(Obligation("owned-falsy/%s/n=1" % op, make_harness(op, 1, factory=falsy, twins=True),
+                              bounds={"list length n": 1, "owner": "falsy (defines __bool__ / __len__)"},
+                              leverage="all integer arguments", **ocommon))
     obs.append(Obligation("normalize/unbounded-length", norm_harness,
                           bounds={"list length n": "unbounded Int >= 0", "start, stop": "unbounded Int or None",
                                   "step": "-8..8 or None (constant divisor in the count closed form)"},
